@@ -1054,18 +1054,47 @@ impl<F: Fl> Sut for KmSut<F> {
                 p.iter().zip(q).map(|(a, b)| (a - b) * (a - b)).sum()
             }
         };
-        // memberships against the OLD centroids, then the running-mean recurrence
+        // memberships against the OLD centroids, then the running-mean recurrence.  The oracle
+        // computes distances in f64 and in its own summation order; the learner computes them in
+        // its float type.  A row whose two smallest distances agree to within that arithmetic's
+        // rounding has no assignment the statement could single out: there the previous model's
+        // own `predict` says which centroid *the library* calls the closest one, and without a
+        // previous model (first batch on precomputed centroids) the step is not checked.
+        let own: Option<Vec<usize>> = prev.as_ref().map(|pm| {
+            let xbuf: Array2<F> = batch_buffer::<F>(c, d, a, b);
+            let v = batch_view(c, &xbuf);
+            match pm {
+                KmModel::L2(k) => k.predict(&v).to_vec(),
+                KmModel::L1(k) => k.predict(&v).to_vec(),
+            }
+        });
         let mut inertia = 0.0;
         let mut members = Vec::with_capacity(nb);
-        for r in a..b {
+        let amb_tol = 8.0 * (c.d as f64 + 4.0) * F::EPS;
+        for (i, r) in (a..b).enumerate() {
             let row: Vec<f64> = d.x.row(r).to_vec();
             let mut best = 0;
             let mut bd = dist(&old[0], &row);
-            for (ci, ce) in old.iter().enumerate() {
+            let mut second = f64::INFINITY;
+            for (ci, ce) in old.iter().enumerate().skip(1) {
                 let dd = dist(ce, &row);
                 if dd < bd {
+                    second = bd;
                     bd = dd;
                     best = ci;
+                } else if dd < second {
+                    second = dd;
+                }
+            }
+            let ambiguous = second.is_finite() && (second - bd) <= amb_tol * (second + bd);
+            if ambiguous {
+                _out.ties_skipped += 1;
+                match &own {
+                    Some(o) if o[i] < c.k => {
+                        best = o[i];
+                        bd = dist(&old[best], &row);
+                    }
+                    _ => return None,
                 }
             }
             inertia += bd;
